@@ -530,6 +530,12 @@ func (s *inProcessServerStream) finish(err error) {
 	s.trailers = nil
 
 	if err != nil {
+		if _, ok := status.FromError(err); !ok {
+			// like a gRPC server, report non-status errors as a status so that
+			// e.g. io.EOF returned by a handler is not mistaken by the client
+			// for a clean end of stream
+			err = status.FromContextError(err).Err()
+		}
 		_ = writeMessage(s.ctx, nil, s.responses, frame{err: err})
 	}
 }
